@@ -134,6 +134,7 @@ def check(ctx):
     _planner(rep, model)
     _guards(rep, model)
     _real_length(rep, ctx)
+    _wavelet_crop(rep, model)
     return rep
 
 
@@ -910,3 +911,85 @@ def _real_length(rep, ctx):
                             'length' % (ast.unparse(c)[:60], key), rel,
                             c.lineno)
     rep.floor('R7', 'complex-to-real inverse FFT calls', n, 2)
+
+
+# --------------------------------------------------------------------------
+# R8: wavelet reconstruction keeps exactly the range shape.  pywt.waverecn
+# returns every odd transformed axis rounded up to the next even size; the
+# inverse transform must return, for every pattern of odd axes, the leading
+# block of the range shape (entries untouched), and reject anything else.
+def _wavelet_crop(rep, model):
+    import numpy as _np
+    from ..namodel import NA, NAHooks, NAInterp, symbols
+    WAV = 'odl/trafos/wavelet.py'
+    ci = model.get('WaveletTransformInverse')
+    if ci is None or '_call' not in ci.methods:
+        raise AnalysisError('anchor vanished: WaveletTransformInverse._call')
+    line = ci.methods['_call'].lineno
+
+    class H(NAHooks):
+        def __init__(self, recon):
+            self.recon = recon
+
+        def on_name(self, interp, name):
+            if name == 'pywt':
+                return Rec('pywt',
+                           unravel_coeffs=Builtin(
+                               'unravel_coeffs', lambda c, **k: c),
+                           waverecn=Builtin(
+                               'waverecn', lambda c, **k: self.recon))
+            return NotImplemented
+
+        def on_getattr(self, interp, obj, name):
+            if isinstance(obj, Rec):
+                if name in obj.attrs:
+                    return obj.attrs[name]
+                raise PyRaise('AttributeError')
+            return NAHooks.on_getattr(self, interp, obj, name)
+
+    n = 0
+    for shape in ((3, 4), (3, 5), (3, 5, 7), (4, 3, 5)):
+        for extra in itertools.product((0, 1), repeat=len(shape)):
+            # an axis can come back one longer only if its size is odd
+            if any(e and s % 2 == 0 for e, s in zip(extra, shape)):
+                continue
+            n += 1
+            rshape = tuple(s + e for s, e in zip(shape, extra))
+            tag = 'WaveletTransformInverse._call[range %s, reconstruction ' \
+                '%s]' % ('x'.join(map(str, shape)),
+                         'x'.join(map(str, rshape)))
+            try:
+                recon = symbols('r', rshape)
+                h = H(recon)
+                I = NAInterp(model, {}, h)
+                op = Inst(ci)
+                op.attrs.update({
+                    'impl': 'pywt', '_coeff_slices': None,
+                    '_coeff_shapes': None, 'pywt_wavelet': None,
+                    'pywt_pad_mode': None, 'axes': None,
+                    '_Operator__range': Rec('range', shape=shape),
+                    '_WaveletTransformBase__impl': 'pywt'})
+                out = I.call(I.getattr_value(op, '_call'),
+                             [Rec('coeffs')], {})
+                probs = []
+                if not isinstance(out, NA) or out.a.shape != shape:
+                    probs.append('returns shape %r' % (
+                        getattr(getattr(out, 'a', None), 'shape', out),))
+                else:
+                    for idx in _np.ndindex(*shape):
+                        if out.a[idx] is not recon.a[idx] and not (
+                                to_rat(out.a[idx]) - to_rat(
+                                    recon.a[idx])).is_zero():
+                            probs.append('entry %r moved' % (idx,))
+                            break
+                if probs:
+                    rep.violation('R8', 'WaveletTransformInverse._call',
+                                  '%s: %s' % (tag, probs[0]), WAV, line)
+                else:
+                    rep.holds('R8', tag, 'leading block of the range shape')
+            except Undecided as e:
+                rep.undecided('R8', tag, str(e), WAV, line)
+            except PyRaise as e:
+                rep.violation('R8', 'WaveletTransformInverse._call',
+                              '%s: raises %s' % (tag, e.name), WAV, line)
+    rep.floor('R8', 'reconstruction shape patterns', n, 14)
